@@ -320,12 +320,12 @@ def run_flow(*steps, on_error=None):
 
 
 def tuple_source(resources):
-    """resources: list of (name, fields[(name,type)], rows[list of dict]) -> a load((descriptor, iterators)) step."""
+    """resources: list of (name, fields[(name,type[,extra])], rows[list of dict][, primary key[, schema extras]]) -> a load((descriptor, iterators)) step."""
     from dataflows import load
     desc = {'resources': [
         {'name': n, 'path': n + '.csv', 'profile': 'tabular-data-resource',
          'schema': dict({'fields': [dict(name=f[0], type=f[1], **(f[2] if len(f) > 2 else {})) for f in fields]},
-                        **({'primaryKey': pk} if pk else {}))}
+                        **({'primaryKey': pk} if pk else {}), **(rest[1] if len(rest) > 1 and rest[1] else {}))}
         for (n, fields, rows, *rest) in resources for pk in [rest[0] if rest else None]]}
     its = [iter([dict(r) for r in rows]) for (n, fields, rows, *rest) in resources]
     return load((desc, iter(its)), strip=False)       # hand the rows over untouched
